@@ -75,6 +75,7 @@ def one_history(exe, root, seed, steps, stats, shim=None):
     if shim and seed % 4 != 0:
         s.shim = shim; s.fake_now = 1_600_000_000 + rng.below(10**7)      # three quarters of the histories: commands hours to days apart
     s.sync(*rng.choice([[], ['--test-force-murmur3'], ['--test-force-spooky2']]))
+    prev_hashes = None      # (disk, position) -> hashes recorded there by the previous content file (any block kind)
     for step in range(steps):
         s.fs_random(1 + rng.below(5))
         name, r = chk_C06.commands(rng, s)
@@ -109,6 +110,21 @@ def one_history(exe, root, seed, steps, stats, shim=None):
         if any(i[2] for i in dec.info.values()): stats['with_bad'] = stats.get('with_bad', 0) + 1
         if any(i[3] for i in dec.info.values()): stats['with_rehash'] = stats.get('with_rehash', 0) + 1
         if any(i[4] for i in dec.info.values()): stats['with_justsynced'] = stats.get('with_justsynced', 0) + 1
+        # deleted blocks with their hashes: a DELETED block comes from a recorded block of that disk at that position and
+        # keeps ITS hash (or loses it: INVALID / ZERO patterns) - never the hash of another position
+        cur = {}
+        for f in dec.files:
+            dn = dec.maps[f['mapping']][0]
+            for (pos, kind, h) in f['blocks']: cur.setdefault((dn, pos), set()).add(h)
+        for m, dd in dec.deleted.items():
+            dn = dec.maps[m][0]
+            for pos, h in dd.items():
+                cur.setdefault((dn, pos), set()).add(h)
+                if prev_hashes is not None and (dn, pos) in prev_hashes and h.strip('0') and h.lower().strip('f') and h not in prev_hashes[(dn, pos)]:
+                    stats['deleted_hash_checked'] = stats.get('deleted_hash_checked', 0) + 1
+                    return fail('[deleted-hash] the DELETED block of disk %s at position %d carries hash %s, but the previous content file recorded %s at that position' % (dn.decode('latin-1'), pos, h, sorted(prev_hashes[(dn, pos)])))
+                stats['deleted_hash_checked'] = stats.get('deleted_hash_checked', 0) + 1
+        prev_hashes = cur
         pr = compare_views(a, s, dec, stats)
         if pr:
             return fail('binary view of the loaded state differs from the decoded state: ' + pr[0], '\n'.join(pr[:10]))
@@ -120,6 +136,47 @@ def one_history(exe, root, seed, steps, stats, shim=None):
                 return fail('test-rewrite does not reproduce the content file byte for byte (rc=%d)' % r2.rc)
     a.destroy()
     return None
+
+def deleted_hole(exe, root, seed, stats):
+    """a run of DELETED blocks with a hole cleared in its MIDDLE by a ranged sync (the stripe of the hole holds no live file
+    on any disk, stripes before and after it still do): the blocks after the hole must be saved with the hashes of their own
+    positions"""
+    rng = e2e.Rng(seed)
+    a = e2e.Arr(root, exe, ndisks=2, nparity=1 + rng.below(2), hashsize=rng.choice([16, 8]), ncontent=1)
+    s = sim.Sim(a, rng.fork(), weird_names=False)
+    bs = a.block
+    na = 6 + rng.below(5)                 # d1/A: positions 0 .. na-1
+    hole = 2 + rng.below(na - 4)          # strictly inside, at least one block of A after it
+    a.write('d1', 'A', rng.bytes(na * bs - rng.below(100)), s.tick())
+    a.write('d2', 'P', rng.bytes(hole * bs), s.tick())            # positions 0 .. hole-1
+    a.write('d2', 'Q', rng.bytes(bs - rng.below(50)), s.tick())   # position hole
+    a.write('d2', 'R', rng.bytes((na - hole - 1) * bs), s.tick()) # positions hole+1 .. na-1
+    if s.sync().rc != 0:
+        a.destroy(); return None
+    d0 = fx.decode(a)
+    A = [f for f in d0.files if f['sub'] == b'A']
+    Q = [f for f in d0.files if f['sub'] == b'Q']
+    if not A or not Q or Q[0]['blocks'][0][0] != hole or [b[0] for b in A[0]['blocks']] != list(range(na)):
+        a.destroy(); return None          # another layout than intended: nothing claimed
+    want = {b[0]: b[2] for b in A[0]['blocks']}
+    os.unlink(a.path('d1', 'A')); os.unlink(a.path('d2', 'Q')); s.log('d1/A and d2/Q deleted')
+    a.write('d1', 'keep', rng.bytes(10), s.tick())
+    r = s.run('sync', '-S', str(hole), '-B', '1', '--force-empty')
+    stats['deleted_hole'] = stats.get('deleted_hole', 0) + 1
+    d1 = fx.decode(a)
+    problem = None
+    if r.rc != 0 or not d1.ok:
+        a.destroy(); return None
+    for m, dd in d1.deleted.items():
+        if d1.maps[m][0] != b'd1': continue
+        for pos, h in dd.items():
+            if h.strip('0') and h.lower().strip('f') and pos in want and h != want[pos]:
+                problem = '[deleted-hash] after sync -S %d -B 1 the DELETED block of d1 at position %d is saved with hash %s, its own hash was %s (that hash belongs to position %s)' % (
+                    hole, pos, h, want[pos], [q for q, x in want.items() if x == h])
+                break
+    hist = '\n'.join(s.history)
+    a.destroy()
+    return ('%s; deleted-hole na=%d hole=%d seed=%d' % (problem, na, hole, seed), problem + '\n' + hist) if problem else None
 
 def emptied_disk_history(exe, root, seed, stats):
     """a disk loses all its files while its longest extent reaches beyond every live file; a partial sync saves the
@@ -194,7 +251,7 @@ def main(tier, seed):
     def job2(i):
         return nhist + i, emptied_disk_history(exe, os.path.join(vlib.scratch(), 'e%d' % i), seed * 100000 + 55000 + i, stats)
     with ThreadPoolExecutor(vlib.NCPU) as ex:
-        res = list(ex.map(job, range(nhist))) + list(ex.map(job2, range(nemp)))
+        res = list(ex.map(job, range(nhist))) + list(ex.map(job2, range(nemp))) + list(ex.map(lambda i: (nhist + nemp + i, deleted_hole(exe, os.path.join(vlib.scratch(), 'dh%d' % i), seed * 100000 + 56000 + i, stats)), range(8 if tier == 'quick' else 80)))
     nbad = 0
     for i, r in res:
         if r:
@@ -206,7 +263,7 @@ def main(tier, seed):
             chk.violation('C10 static obligation failed: ' + o[0], o[0] + '\n' + o[2], False, 'static')
     chk.evaluations = stats.get('files', 0)
     chk.distinct = stats.get('files', 0)
-    chk.rule = ('every content file left by every command of %d seeded histories (grammar of C06): Lean decode -> Lean re-serialise must be byte-identical; all copies identical; decoded files/links/per-stripe info must equal `list -l` and `status -G -l` of the binary; `test-rewrite` byte-identical (1/2 of steps); the commands of three quarters of the histories run hours to days apart (frozen clock); plus %d emptied-disk histories (a disk loses every file while its extent reaches beyond all live files, partial sync -E -B k saves the state): C06 parity oracle on the reloaded state and fix of a lost file of another disk' % (nhist, nemp))
+    chk.rule = ('every content file left by every command of %d seeded histories (grammar of C06): Lean decode -> Lean re-serialise must be byte-identical; all copies identical; decoded files/links/per-stripe info must equal `list -l` and `status -G -l` of the binary; `test-rewrite` byte-identical (1/2 of steps); the commands of three quarters of the histories run hours to days apart (frozen clock); plus %d emptied-disk histories (a disk loses every file while its extent reaches beyond all live files, partial sync -E -B k saves the state): C06 parity oracle on the reloaded state and fix of a lost file of another disk; every DELETED block must carry a hash the previous content file recorded at ITS position (history oracle), incl. directed runs of deleted blocks with a hole cleared in the middle by a ranged sync' % (nhist, nemp))
     chk.samples = [dict(stats)]
     chk.corr['CODEC'] = dict(stats)
     chk.finish()
